@@ -231,6 +231,13 @@ def step (c : Cfg) (s : State) : Act → Option State
         else some { s1 with loop := .launching i }
     else none
   | .visitLaunch i preOk =>
+    -- `preOk` = "dag.EvalConditions(node.data.Step.Preconditions) returned nil". EvalConditions returns the first
+    -- error of evalCondition, which has two sources: the value differs from `expected` (errConditionNotMet) and
+    -- the condition could not be evaluated at all - `Condition.eval` failed, i.e. a command substitution in it
+    -- exited non-zero or could not be started (errEvalCondition). Schedule tests `err != nil` only, so an
+    -- unevaluable precondition is the same transition as an unmet one: the step is labelled skipped, no worker is
+    -- started and lastError is NOT set (the run's outcome is unaffected). The sentinels are unexported: no caller
+    -- can tell them apart. (tie: h_sched_Schedule / scheduleIfConds; internal/dag/condition.go)
     if s.loop = .launching i then
       if (c.node i).hasPre ∧ preOk = false then
         some { (s.setNode i { s.nd i with status := .skipped, preSkip := true }) with loop := .scanning }
